@@ -223,6 +223,42 @@ def check(case, st):
                             if isinstance(val, Raised) or abs(val - mmin) > 1e-9:
                                 v("argmin-not-argmin", "minimiser %r of D converts to %r with M = %r, min M = %r" % (sol, r, val, mmin))
                                 break
+    if case["constraint"] == 0:
+        check_again_after_edit(case, st)
+
+
+def check_again_after_edit(case, st):
+    """Convert, change one coefficient in place (the model stays refreshed), convert again: the second form must describe the
+    NEW model (nothing may remember the first conversion)."""
+    typ = case["type"]
+    spin = typ in ("PUSO", "PCSO")
+    M = build_model(case)
+    for t in ("to_qubo", "to_pubo"):
+        call(getattr(M, t))
+    k0 = max(M, key=len)
+    M[k0] = M[k0] * 2 + 1
+    mapping = M.mapping
+    n = M.num_binary_variables
+    inv = {i: l for l, i in mapping.items()}
+    mlabels = [inv[i] for i in range(n)]
+    Mtab = rp.tt(M, mlabels, spin)
+    for tname in ("to_qubo", "to_quso"):
+        tspin = tname == "to_quso"
+        D, _w = call(getattr(M, tname))
+        st.transitions += 1
+        st.traces += 1
+        if isinstance(D, Raised):
+            continue
+        used = {l for k in D for l in k}
+        a = max(0, max(used, default=-1) + 1 - n)
+        if a > MAX_ANC or any((not isinstance(l, (int, np.integer))) or l < 0 for l in used):
+            continue
+        Dtab = rp.tt(D, list(range(n + a)), tspin).reshape(1 << a, 1 << n)
+        ext = np.abs(Dtab - Mtab[None, :]) <= 1e-9 * (1 + np.abs(Mtab[None, :]))
+        if not ext.any(axis=0).all() or (Dtab < Mtab[None, :] - 1e-9).any():
+            st.violation("%s|%s|after-in-place-edit|stale-form" % (typ, tname), dict(case, again=True),
+                         "C01 %s: after %s(), M[%r] changed in place, %s() again = %s does not describe the edited model %s"
+                         % (typ, "to_qubo/to_pubo", k0, tname, short(dict(D), 160), short(dict(M), 160)))
 
 
 def run(ctx):
